@@ -8,6 +8,10 @@ props = [json.loads(l) for l in open(os.path.join(V, "properties.jsonl"))]
 SIM_NOTE = ("trusted base: the simulated kernel simk (documented ET-epoll / non-blocking socket / timerfd contract), the Python reference model and "
             "decoders, gcc ASan/UBSan/LSan; the real cjet sources are compiled unmodified from /repo's working tree and linked with ld --wrap")
 
+UNIT_NOTE = {
+    "C18": "trusted base: the independent reference DFA in harness/utf8/utf8_harness.c (written from RFC 3629), gcc ASan/UBSan; real utf8_checker.c compiled from /repo's working tree; little-endian word order",
+}
+
 CLAIMS = {
     "C01": ("exploration", "reference-model replica monitor over seeded histories on the simulated kernel (runtime monitoring)",
             "Random multi-peer histories on the real daemon; every fetch's replayed notification stream is compared with a reference model at every quiescent point, on default/tiny/one/wide table and batch configurations.", "4 C01"),
@@ -17,6 +21,10 @@ CLAIMS = {
             "Every set/call is tracked from the caller through the forwarded request on the owner's connection to the final answer; deadlines use the simulated clock.", "4 C03"),
     "C04": ("exploration", "reference-map monitor compared after every response, observer replica and get results (runtime monitoring)",
             "A reference map predicts the class of every well-formed request and is compared with a fetch-all observer and get results at every quiescent point.", "4 C04"),
+    "C16": ("exploration", "reference matcher vs get/fetch results of the real daemon over an adversarial operand alphabet (runtime monitoring)",
+            "All single matchers x 41 operands x 3 option settings x 40 paths exhaustively, random multi-matcher rules, ill-formed rules and repeated option keys; results of the real daemon compared with an independent Python matcher.", "4 C16"),
+    "C18": ("exploration", "differential monitoring of the real validator against an independent RFC 3629 DFA (product exploration, word sweeps)",
+            "Exhaustive product of validator state x reference DFA state x 256 bytes; all 2^32 words (thorough) / class-representative alphabet (quick) through the 32-bit fast path, 64-bit lanes, all split points and alignments of the chunked and auto-aligned entry points; ASan+UBSan lane and -O2 lane.", "4 C18"),
     "C06": ("exploration", "sanitizers (ASan+UBSan+LSan) on the whole daemon under hostile inputs, with witness-connection monitor",
             "Whole daemon under gcc ASan/UBSan/LSan on the simulated kernel; hostile structured and mutated inputs on every endpoint with random segmentation, batching and buffer scribbling; witnesses must stay served.", "4 C06"),
 }
@@ -33,7 +41,7 @@ def main():
             "replay_cmd_template": "python3 checks/run --replay {path}",
             "engine": "cjv",
             "level_claimed": {"category": level, "text": text, "design_ref": "DESIGN.md section " + ref},
-            "level_note": SIM_NOTE,
+            "level_note": UNIT_NOTE.get(pid, SIM_NOTE),
             "technique": technique,
         })
     na = [{"property_id": p["id"], "reason": "check not built yet (work in progress)"} for p in props if p["id"] not in CLAIMS]
